@@ -53,10 +53,19 @@ Proof.
 Qed.
 
 (* ------------------------------------------------------------------ invariant and abstraction of the model *)
-(* representation invariant of a memory: the cell-level invariant, and every stored value lies
-   inside the u64 address space (strictly below 2^64: `address + bytes` is computed unchecked) *)
+(* representation invariant of a memory: the cell-level invariant, and every occupied cell lies
+   in the u64 address space, strictly below its last address (`address + bytes` is computed
+   unchecked by `store`, so a stored value never reaches 2^64) *)
 Definition InvM (m : cmem) : Prop :=
-  Inv (load_cell m) /\ forall b v, load_cell m b = Some (CVal v) -> 0 <= b /\ b + vk v < 2^64.
+  Inv (load_cell m) /\ forall x, load_cell m x <> None -> 0 <= x < 2^64 - 1.
+Lemma InvM_range (m : cmem) : InvM m -> forall b v, load_cell m b = Some (CVal v) -> 0 <= b /\ b + vk v < 2^64.
+Proof.
+  intros [[I1 I2] D] b v E. destruct (I2 b v E) as [(Hk & _) Hfill].
+  assert (Hb: 0 <= b < 2^64 - 1) by (apply D; rewrite E; discriminate).
+  destruct (Z.eq_dec (vk v) 1) as [E1|N1]; [lia|].
+  assert (Hl: 0 <= b + vk v - 1 < 2^64 - 1) by (apply D; rewrite (Hfill (b + vk v - 1)) by lia; discriminate).
+  lia.
+Qed.
 (* the byte array a memory denotes *)
 Definition mabs (m : cmem) : Z -> option Z := abs (m_end m) (ob_get8 (m_back m)) (load_cell m).
 
@@ -125,7 +134,7 @@ Proof.
         apply (subval_post m a (mkc (8 * k) wv) 0 n a n); try assumption; rewrite ?vk_mkc; lia.
   - (* inside a value that starts at b *)
     destruct (I1 a b Ea) as (w & Eb & Hab). rewrite Eb. destruct (I2 b w Eb) as [Hw _].
-    destruct (HR b w Eb) as [Hb0 Hb64].
+    destruct (InvM_range m HM b w Eb) as [Hb0 Hb64].
     destruct (wfv_shape w Hw) as (k & wv & -> & Hk & Hk64 & Hr). rewrite vk_mkc in Hab, Hb64.
     cbn [v_bits COps cbits]. set (d := a - b). assert (Hd: 1 <= d < k) by (unfold d; lia).
     assert (POST: forall k', 1 <= k' -> d + k' <= k -> k' <= n ->
@@ -391,6 +400,26 @@ Section Bytewise.
   Qed.
 End Bytewise.
 
+Lemma gather_length bm c : forall a l, gather bm a c = Some l -> Zlength l = Z.of_nat c.
+Proof.
+  induction c as [|c IH]; intros a l G; cbn [gather] in G.
+  - injection G as <-. reflexivity.
+  - destruct (bm a); [|discriminate]. destruct (gather bm (a + 1) c) eqn:G2; [|discriminate].
+    injection G as <-. rewrite Zlength_cons, (IH _ _ G2). lia.
+Qed.
+
+Lemma load_f_S fuel (m : cmem) a bits :
+  load_f COps (Datatypes.S fuel) m a bits =
+  if negb (bits mod 8 =? 0) then Err ECustom
+  else if bits =? 0 then Err ECustom
+  else f <- first COps m a bits ;;
+       match f with
+       | None => Ok None
+       | Some lv => if v_bits COps lv =? bits then Ok (Some lv)
+                    else bytewise COps (fun x => load_f COps fuel m x 8) m a bits (bits / 8) (Z.to_nat (bits / 8)) 0 None
+       end.
+Proof. reflexivity. Qed.
+
 (* ------------------------------------------------------------------ abs_load *)
 (* a load of n >= 1 bytes whose range lies in the address space returns exactly the specified
    value: the n abstract bytes assembled in the memory's endianness, None iff one is absent *)
@@ -398,7 +427,7 @@ Theorem abs_load_l (m : cmem) a n :
   InvM m -> back_ok (m_back m) -> 1 <= n -> 8 * n < 2^63 -> 0 <= a -> a + n <= 2^64 ->
   load COps m a (8 * n) = Ok (load_spec (m_end m) (mabs m) a n).
 Proof.
-  intros HM Hbk Hn Hn63 Ha Han. unfold load. cbn [load_f].
+  intros HM Hbk Hn Hn63 Ha Han. unfold load. rewrite load_f_S.
   replace (8 * n mod 8) with 0 by lia. change (0 =? 0) with true. cbn [negb].
   destruct (Z.eqb_spec (8 * n) 0); [lia|].
   destruct (first_ok m a n HM Hbk Hn Hn63) as (r & E & P). rewrite E. cbn [bind].
@@ -420,16 +449,8 @@ Proof.
       rewrite (bytewise_ok m a n HM Hbk Hn2 Hn63 Ha Han (Z.to_nat n) 0 0); try lia.
       * rewrite Z.add_0_r. destruct (gather (mabs m) a (Z.to_nat n)) as [l|] eqn:G; [|reflexivity].
         rewrite Z2Nat.id by lia. unfold accopt. destruct (Z.eqb_spec (0 + n) 0); [lia|].
-        assert (Zlength l = n).
-        { clear - G Hn. revert a l G. generalize (Z.to_nat n) as c. intros c.
-          assert (forall a l, gather (mabs m) a c = Some l -> Zlength l = Z.of_nat c) as Hlen.
-          { induction c as [|c IH]; intros a l G; cbn [gather] in G.
-            - injection G as <-. reflexivity.
-            - destruct (mabs m a); [|discriminate]. destruct (gather (mabs m) (a + 1) c) eqn:G2; [|discriminate].
-              injection G as <-. rewrite Zlength_cons, (IH _ _ G2). lia. }
-          intros a l G. rewrite (Hlen a l G). reflexivity. }
+        assert (Zlength l = n) by (rewrite (gather_length _ _ _ _ G), Z2Nat.id; lia).
         unfold assemble. rewrite H. reflexivity.
-      * rewrite Z2Nat.id; lia.
       * destruct (m_end m); cbn [accinv]; [rewrite Z.mul_0_r; cbn; lia|].
         exists 0. rewrite Z.mul_0_r. cbn. lia.
   - (* first byte absent *)
